@@ -323,7 +323,12 @@ impl Consume for SenderFlowState {
             let notified = self.notifier.notified();
             match consume_link_credit(&self.state().lock, item) {
                 Ok(outcome) => return outcome,
-                Err(_) => notified.await, // **NOT** cancel safe
+                Err(_) => {
+                    #[cfg(fe2o3_amqp_verif)]
+                    crate::verif::sched::point(crate::verif::sched::CONSUME_AFTER_FAILED_CHECK)
+                        .await;
+                    notified.await // **NOT** cancel safe
+                }
             }
         }
     }
